@@ -102,6 +102,20 @@ func C01(c *Ctx) {
 		ok := len(bcs) == 1 && strings.Contains(npath(bcs[0].Common().Args[2]), "reconstructThresholdSignature(") && strings.HasSuffix(npath(bcs[0].Common().Args[2]), "#0")
 		r.Check(ok, "C01/R3", "node.processMessage:broadcast-arg", "the value broadcast is reconstructThresholdSignature's result", c.Pos(pm.Pos()), "broadcast argument not the reconstruction result")
 	}
+	thresholdWriters(c, "C01/R4")
+	// the operation's threshold entry comes from the same proposal value
+	checkStores(c, []storeSpec{
+		{"C01/R4", "dkg_proposal_fsm.actionInitDKGProposal:entry-threshold", [3]string{pkgDPF, "DKGProposalFSM", "actionInitDKGProposal"}, "DKGProposalPubKeysParticipantEntry", "Threshold", `SignatureProposalPayload\.Quorum\[0\]\.Threshold$`, "the threshold sent to the airgapped machines is the invitation's", "threshold substituted"},
+		{"C01/R4", "signature_proposal_fsm.actionInitSignatureProposal:participant-threshold", [3]string{pkgSPF, "SignatureProposalFSM", "actionInitSignatureProposal"}, "SignatureProposalParticipant", "Threshold", `\.SigningThreshold$`, "the invitation records the proposal's SigningThreshold", "threshold substituted"},
+	})
+}
+
+
+// thresholdWriters: the round threshold is written once on each side (airgapped DKG object, FSM payload), from the
+// proposal, and nowhere else — a later rewrite (a "hardening" that raises it, a clamp) makes the polynomial degree
+// differ from the t that the signing quorum and the interpolation use. Shared by C01/R4 and C02/R4.
+func thresholdWriters(c *Ctx, rule string) {
+	r := c.R
 	// R4: writers of DKG.Threshold and of DumpedMachineStatePayload.Threshold
 	var tw []string
 	for f := range c.P.AllFuncs() {
@@ -120,10 +134,5 @@ func C01(c *Ctx) {
 	want := []string{"DKG@handleStateDkgCommitsAwaitConfirmations:=json(o.Payload)[0].Threshold", "DumpedMachineStatePayload@actionInitSignatureProposal:=args[0].(requests.SignatureProposalParticipantsListRequest)#0.SigningThreshold"}
 	okW := len(tw) == 2 && strings.HasPrefix(tw[0], "DKG@handleStateDkgCommitsAwaitConfirmations:=") && strings.HasPrefix(tw[1], "DumpedMachineStatePayload@actionInitSignatureProposal:=") && strings.HasSuffix(tw[1], ".SigningThreshold")
 	_ = want
-	r.Check(okW, "C01/R4", "threshold:writers", "the round threshold is written once on each side, from the proposal", "", "writers: "+strings.Join(tw, " ; "))
-	// the operation's threshold entry comes from the same proposal value
-	checkStores(c, []storeSpec{
-		{"C01/R4", "dkg_proposal_fsm.actionInitDKGProposal:entry-threshold", [3]string{pkgDPF, "DKGProposalFSM", "actionInitDKGProposal"}, "DKGProposalPubKeysParticipantEntry", "Threshold", `SignatureProposalPayload\.Quorum\[0\]\.Threshold$`, "the threshold sent to the airgapped machines is the invitation's", "threshold substituted"},
-		{"C01/R4", "signature_proposal_fsm.actionInitSignatureProposal:participant-threshold", [3]string{pkgSPF, "SignatureProposalFSM", "actionInitSignatureProposal"}, "SignatureProposalParticipant", "Threshold", `\.SigningThreshold$`, "the invitation records the proposal's SigningThreshold", "threshold substituted"},
-	})
+	r.Check(okW, rule, "threshold:writers", "the round threshold is written once on each side, from the proposal", "", "writers: "+strings.Join(tw, " ; "))
 }
